@@ -2,11 +2,16 @@
    This file holds nothing but the property theorems (closed by `exact`) and Print Assumptions.
    Model: Sched/Model.v (scheduler.go:98-259, node.go).  Proofs: Sched/Proofs.v (invariant), Sched/ProofsTerm.v
    (measure, progress).  Tie to the code: tools/props/C15.py (trace validation of the real scheduler).
-   Premise of every theorem: norepeat c (no repeatPolicy step; those belong to C05).  Since fix f9e55a3 the theorems hold
+   Premise of every theorem: norepeat c (no repeatPolicy step; those belong to C05).  For C15_bound the premise is NEEDED:
+   a step with repeatPolicy and continueOn.failure whose command fails is labelled failed and keeps repeating - it is no
+   longer counted as running, and with maxActiveRuns = 1 two commands execute at once (C15_repeating_step_refuted below;
+   the same on the real scheduler: findings/C15-repeat-continue-on-failure.json).  For the finiteness theorems it is needed
+   because a repeating step runs until a stop request; what holds after a stop, for EVERY configuration, is in C05
+   (C05_no_new_start, C05_started_at_most_once: at most one more start per step).  Since fix f9e55a3 the theorems hold
    whether or not Schedule is given a done channel. *)
 From Coq Require Import List.
 Import ListNotations.
-From BD.Sched Require Import Model Proofs ProofsFinal ProofsTerm Replay ReplayProofs ProofsTrace Examples.
+From BD.Sched Require Import Model Proofs ProofsFinal ProofsTerm Replay ReplayProofs ProofsTrace Examples Examples2.
 
 (* In every reachable state of every configuration with maxActiveRuns = k > 0 - that is after every prefix of
    every execution, whatever the DAG, the outcomes and the interleaving - at most k nodes are in state running
@@ -94,3 +99,15 @@ Example C15_done_nil_flip_repaired :
             In 0 (deps (steps flip_cfg 1)) /\ ph (nd s 0) = PExec /\ st (nd s 0) = NRunning /\
             step flip_cfg s (LCommit 1) = None.
 Proof. exact stale_flip_repaired. Qed.
+
+(* Why norepeat is a premise of C15_bound: maxActiveRuns = 1; step 0 (repeatPolicy + continueOn.failure) fails once, is
+   labelled failed and waits to repeat; step 1 is launched (no node is in state running); step 0 repeats: two commands
+   execute (exec_count = 2) while the quantity the code counts is 1. *)
+Example C15_repeating_step_refuted :
+  maxActive repeat_cof_cfg = 1 /\ donech repeat_cof_cfg = true /\
+  exists s1 s2 s3, run repeat_cof_cfg (init repeat_cof_cfg) repeat_cof_pre = Some s1 /\
+    step repeat_cof_cfg s1 (WExecStart 1) = Some s2 /\ run repeat_cof_cfg s2 repeat_cof_post = Some s3 /\
+    In 0 (deps (steps repeat_cof_cfg 1)) /\ In (WExecStart 0) repeat_cof_post /\
+    st (nd s1 0) = NError /\ ph (nd s1 0) = PRepeatWait /\
+    ph (nd s3 0) = PExec /\ ph (nd s3 1) = PExec /\ exec_count repeat_cof_cfg s3 = 2 /\ running_count repeat_cof_cfg s3 = 1.
+Proof. exact repeat_cof_breaks_order_and_cap. Qed.
